@@ -2,8 +2,10 @@ package checks
 
 import (
 	"encoding/json"
+	"fmt"
 
 	"verif/harness"
+	"verif/simdisk"
 )
 
 func init() {
@@ -12,12 +14,18 @@ func init() {
 		if err := json.Unmarshal(raw, &p); err != nil {
 			return Result{}, err
 		}
+		if len(p.Aux) > 0 && p.Aux[0] == 2 {
+			return Guard(func() Result { return RunC06Faults(&p) }), nil
+		}
 		return GuardEnum(func() Result { return RunC06(&p, false) }), nil
 	}
 	harness.Specs["C06"] = &harness.PropSpec{
 		ID: "C06", Test: "TestC06", Kind: "queue", Level: "fault_enumeration",
 		Quick: 256, Thorough: 400,
-		Rule: "two parts. (1) clean reopen points: generated producer/consumer histories in which queue and file are closed and reopened after flushes, reader " +
+		Rule: "three parts. (3) I/O failures: generated histories re-executed under 8 fault plans each (write calls failing before effect or after a short write, sync " +
+			"calls failing, bursts of 1-3, hitting the flush and ACK transactions): the affected writer call / ACK returns an error (model rules of a full file), " +
+			"readers keep delivering exactly the flushed events, and once the failures stop the buffered events are flushed, a drain probe (also after a clean reopen of " +
+			"file and queue) delivers exactly the un-ACKed completed events, counters and callbacks agree, and everything can be consumed and ACKed. (1) clean reopen points: generated producer/consumer histories in which queue and file are closed and reopened after flushes, reader " +
 			"sections and ACKs (24 histories per generated case), each reopen followed by a drain probe: a fresh reader must deliver exactly the flushed un-ACKed " +
 			"events; (2) crash points: generated producer/consumer histories recorded on the " +
 			"simulated disk with markers around every writer call, ACK and queue close; for every op-log position after queue creation all crash images (subsets " +
@@ -82,4 +90,65 @@ func RunC06Reopen(p *harness.QProgram) Result {
 	c := r.Counters
 	nt := has(c, "reopen-file", "reopen-queue") && has(c, "ack") && has(c, "probe-partially-acked", "probe-empty-after-ack")
 	return Result{V: v, Counters: c, Nontrivial: nt}
+}
+
+// RunC06Faults executes a queue history under injected I/O failures (write and sync calls of the
+// flush and ACK transactions): the affected writer call / ACK returns an error, nothing is lost,
+// duplicated or reordered, and once the failures stop the buffered events are flushed, the queue
+// holds exactly the un-ACKed events - also after a clean reopen - and can be consumed completely.
+func RunC06Faults(p *harness.QProgram) Result {
+	ref, v := harness.NewQRunner(p, harness.QOpts{})
+	if v != nil {
+		return Result{V: v}
+	}
+	ref.Disk.Arm(nil)
+	if v = ref.Run(); v != nil {
+		return Result{V: v, Counters: ref.Counters}
+	}
+	counts := ref.Disk.Counts()
+	c := ref.Counters
+	var kinds []simdisk.CallKind
+	for _, k := range []simdisk.CallKind{simdisk.CallWrite, simdisk.CallSync} {
+		if counts[k] > 0 {
+			kinds = append(kinds, k)
+		}
+	}
+	if len(kinds) == 0 {
+		return Result{Counters: c}
+	}
+	rnd := harness.NewRand(aux(&harness.Program{Aux: p.Aux}, 1))
+	nplans := 8
+	nontrivial := false
+	for i := 0; i < nplans; i++ {
+		k := kinds[rnd()%uint64(len(kinds))]
+		f := simdisk.Fault{Kind: k, Ordinal: int(rnd() % uint64(counts[k])), Burst: 1 + int(rnd()%3), NoSpace: rnd()%2 == 0}
+		if k == simdisk.CallWrite && rnd()%2 == 0 {
+			f.Mode = simdisk.FailShort
+		}
+		if fs := p.Fault; fs != nil {
+			f = simdisk.Fault{Kind: simdisk.CallKind(fs.Kind), Ordinal: fs.Ordinal, Burst: fs.Burst, Mode: simdisk.FaultMode(fs.Mode), NoSpace: fs.NoSpace}
+		}
+		r, v := harness.NewQRunner(p, harness.QOpts{Faults: true, CheckCounters: true})
+		if v != nil {
+			return Result{V: v, Counters: c}
+		}
+		r.Disk.Arm(&f)
+		v = r.Run()
+		c["queue-fault-runs"]++
+		for _, n := range []string{"call-failed-by-fault", "ack-failed-by-fault", "fault-hit", "flush-after-failure"} {
+			c["qf-"+n] += r.Counters[n]
+		}
+		if r.Counters["call-failed-by-fault"]+r.Counters["ack-failed-by-fault"] > 0 {
+			nontrivial = true
+		}
+		if v != nil {
+			v.Msg = fmt.Sprintf("fault plan {%s call #%d burst %d mode %d nospace=%v}: %s", f.Kind, f.Ordinal, f.Burst, f.Mode, f.NoSpace, v.Msg)
+			p.Fault = &harness.FaultSpec{Kind: int(f.Kind), Ordinal: f.Ordinal, Burst: f.Burst, Mode: int(f.Mode), NoSpace: f.NoSpace}
+			return Result{V: v, Counters: c}
+		}
+		if p.Fault != nil {
+			break
+		}
+	}
+	return Result{Counters: c, Nontrivial: nontrivial}
 }
